@@ -319,7 +319,7 @@ WITNESSES = [
 
 def replay(ctx, case):
     c = case["case"]
-    if c[0] == "e2e-refusal":
+    if c[0] in ("e2e-refusal", "e2e-release-unexpected"):
         from harness.props import c05_e2e
 
         return c05_e2e.replay(ctx, c)
